@@ -4,7 +4,7 @@
    Statement language (impl_lookup, spec_lookup, ...): Image/ViewEq.v.  Witness images: Image/Witnesses.v. *)
 From Coq Require Import List NArith ZArith Bool String.
 From Scalibr Require Import Lib.SortSearch Image.PathTree Image.PathTreeProofs Image.Fill Image.Overlay
-  Image.ImageCases Image.ViewEq Image.Witnesses Image.FillProofs Image.FoldProofs Image.Bounded Image.BoundedProofs Image.DomainP Image.ViewProofs Image.PruneProofs.
+  Image.ImageCases Image.ViewEq Image.Witnesses Image.FillProofs Image.FoldProofs Image.Bounded Image.BoundedProofs Image.DomainP Image.ViewProofs Image.PruneProofs Image.ListingProofs Image.ContentProofs.
 Import ListNotations.
 Open Scope Z_scope.
 
@@ -57,9 +57,10 @@ Print Assumptions pathtree_refines_map.
    NOT proved on all of D.  PROVED for lookups on the sub-domain Dp (no links, explicit parent
    entries) in every view before the final pruning and in every view but the last after it:
    view_eq_overlay_on_Dp_unpruned, view_eq_overlay_on_Dp, and in EVERY view with the default requirer:
-   view_eq_overlay_on_Dp_all_views (below).  Still open on Dp: the last view under a path requirer,
-   content and listing/walk equality (lookup_listing_consistent_on_D); open beyond Dp: symbolic links,
-   implicit parents (D_weak).  Also proved:
+   view_eq_overlay_on_Dp_all_views (below); ReadDir listings: view_listing_eq_overlay_on_Dp(_unpruned);
+   content of regular files before pruning: view_content_eq_overlay_on_Dp_unpruned_partial.  Still open
+   on Dp: the last view under a path requirer (requirer_only_removes_nonrequired), WalkDir equality, content
+   after pruning; open beyond Dp: symbolic links, implicit parents (D_weak).  Also proved:
      - view_eq_overlay_on_D_bounded_partial: the statement (lookups on the paths a, b, a/a, a/b, a/a/a,
        a/c, c and listings of the root and of every directory among them) for EVERY image of the two
        small-scope families of Bounded.v (273 x 273 two-layer images with <= 2 members per layer;
@@ -139,6 +140,44 @@ Theorem view_eq_overlay_on_Dp_all_views : forall cfg im st,
     impl_lookup st i p = spec_lookup cfg im i p.
 Proof. exact view_eq_overlay_on_Dp_all_views_lemma. Qed.
 Print Assumptions view_eq_overlay_on_Dp_all_views.
+
+(* (1) LISTINGS.  ReadDir of an existing path p of view i returns exactly the overlay's children of p
+   (names in byte order): before the final pruning for every requirer, and for FromV1Image itself in every
+   view with the default requirer.  (For a non-directory p both sides list nothing.)
+   NOT proved: fs.WalkDir equality (the model's walk is fuel-bounded; it follows from this theorem for trees
+   of depth <= 12 but that corollary is not written). *)
+Theorem view_listing_eq_overlay_on_Dp_unpruned : forall cfg im st,
+  Dp cfg im = true -> load_unpruned cfg im = Some st ->
+  forall i p, (i < List.length (init_slots im))%nat ->
+    get_segs p (nth i (st_chains st) empty_trie) <> None ->
+    impl_listing st i p = Some (spec_listing cfg im i p).
+Proof. exact view_listing_eq_overlay_on_Dp_unpruned_lemma. Qed.
+Print Assumptions view_listing_eq_overlay_on_Dp_unpruned.
+
+Theorem view_listing_eq_overlay_on_Dp : forall cfg im st,
+  Dp cfg im = true -> prune_safe_p cfg im = true -> cfg_req cfg = None -> load cfg im = Some st ->
+  forall i p, (i < List.length (init_slots im))%nat ->
+    get_segs p (nth i (st_chains st) empty_trie) <> None ->
+    impl_listing st i p = Some (spec_listing cfg im i p).
+Proof. exact view_listing_eq_overlay_on_Dp_lemma. Qed.
+Print Assumptions view_listing_eq_overlay_on_Dp.
+
+(* (2) CONTENT.  On Dp and Dc (ContentProofs.Dc: the node of a regular file points at the path the file was
+   written to; the regular-file members of a layer are written to different paths): the extraction directory
+   keeps every regular-file member's bytes (no later member or layer overwrites them), so a regular file of
+   the overlay is read back with the overlay's content -- before the final pruning.
+   NOT proved: the converse for non-files (nothing readable where the overlay has no regular file) and the
+   state of the extraction directory after the final pruning (with a requirer it is the known finding
+   requirer-deletes-content-of-earlier-views). *)
+Theorem view_content_eq_overlay_on_Dp_unpruned_partial : forall cfg im st,
+  Dp cfg im = true -> Dc im = true -> load_unpruned cfg im = Some st ->
+  forall i p c, (i < List.length (init_slots im))%nat ->
+    spec_content cfg im i p = Some c -> impl_content st i p = Some c.
+Proof. exact view_content_eq_overlay_on_Dp_unpruned_lemma. Qed.
+Print Assumptions view_content_eq_overlay_on_Dp_unpruned_partial.
+
+Example good_image_in_Dc : Dc w_good_p = true.
+Proof. vm_compute. reflexivity. Qed.
 
 Example good_image_prune_safe : prune_safe_p cfg_default w_good_p = true.
 Proof. vm_compute. reflexivity. Qed.
